@@ -281,8 +281,12 @@ class DT(Inverter):
     async def read_settings_data(self) -> dict[str, Any]:
         data = {}
         for setting in self.settings():
-            value = await self.read_setting(setting.id_)
-            data[setting.id_] = value
+            try:
+                value = await self.read_setting(setting.id_)
+                data[setting.id_] = value
+            except (ValueError, RequestFailedException):
+                logger.exception("Error reading setting %s.", setting.id_)
+                data[setting.id_] = None
         return data
 
     async def get_grid_export_limit(self) -> int:
